@@ -459,7 +459,7 @@ type RC[T any] struct {
 	ok bool
 }
 
-func RecvCase[T any](ch <-chan T) *RC[T] { return &RC[T]{ch: ch} }
+func RecvCase[T any](ch <-chan T) *RC[T]  { return &RC[T]{ch: ch} }
 func (c *RC[T]) vsCase() (any, bool, any) { return c.ch, false, nil }
 func (c *RC[T]) set(v any, ok bool)       { c.v, c.ok = conv[T](v), ok }
 func (c *RC[T]) Get() (T, bool)           { return c.v, c.ok }
